@@ -350,11 +350,13 @@ class C20(Prop):
         cases = []
         thorough = ctx.thorough()
         dims = list(range(1, 13)) if thorough else DIMS
-        ts = [0.0, 0.01, 0.7] + ([1e-4, 0.25, 1.0] if thorough else [])
+        # negative durations are legitimate: the two-site TDVP scheme integrates its backward site updates with
+        # forward=True and a negative time difference
+        ts = [0.0, 0.01, 0.7, -0.4] + ([1e-4, 0.25, 1.0, -1.0] if thorough else [])
         hkinds = ["herm", "nonherm"] + (["realsym", "diag", "upper"] if (thorough or stream != "main") else [])
         reps = (3 if thorough else 1) * (budget_scale if stream != "main" else 1)
         if stream != "main":
-            ts = [0.0, 0.01, 0.7, rng.choice([0.05, 0.3, 0.9])]
+            ts = [0.0, 0.01, 0.7, -0.4, rng.choice([0.05, 0.3, 0.9])]
         i = 0
         for rep in range(reps):
             for mode in MODES:
@@ -416,7 +418,7 @@ class C20(Prop):
             return h, psi, case["shape"]
         n = case["n"]
         t = case["t"]
-        h = build_h(case["hkind"], n, rs, case["hnorm"] / max(t, 1.0))
+        h = build_h(case["hkind"], n, rs, case["hnorm"] / max(abs(t), 1.0))
         if case["kind"] == "fea":
             return h, build_psi("complex", [n], rs), [n]
         shape = shapes_of(n, case["order"], rs)
